@@ -32,6 +32,10 @@ PROFILES.append(
     S.profile(min_tasks=2, max_tasks=3, p_resources=100, n_workers=(1, 2), p_select=20, p_cumulative=10, p_delay=70, task_constraints=(0, 1), optional_rules=(0, 1), resource_constraints=(0, 1),
               indicators=(1, 2), indicator_types=["ResourceUtilization", "ResourceCost", "NumberTasksAssigned"], p_work_amount=10, p_optional=70)
 )
+# task groups (with and without window) holding optional members, used as operands of a TaskPrecedence
+PROFILE_GP = S.profile(min_tasks=2, max_tasks=3, horizon=(3, 6), p_no_horizon=5, p_resources=30, task_constraints=(0, 1), optional_rules=(0, 0), resource_constraints=(0, 0),
+                       p_group_precedence=100, p_work_amount=5, p_optional=65)
+PROFILES.append(PROFILE_GP)
 PROFILE_DEL = S.profile(min_tasks=2, max_tasks=4, horizon=(2, 6), p_no_horizon=10, p_resources=65, task_constraints=(0, 3), optional_rules=(0, 1), resource_constraints=(0, 1), buffers=(0, 1), p_work_amount=30, p_delay=25, p_group_precedence=15, **OPT)
 PROFILE_COMP = S.profile(min_tasks=2, max_tasks=3, horizon=(2, 5), p_no_horizon=5, p_resources=60, task_constraints=(0, 2), optional_rules=(0, 2), resource_constraints=(0, 1), buffers=(0, 1), p_work_amount=30, p_delay=25, p_group_precedence=15, **OPT)
 
@@ -322,6 +326,8 @@ def run_shard(ctx):
         run_hypothesis(ctx, S.spec_with_pins(prof, n_sets=5), prop_sound, max_examples=35 if q else 400)
     run_hypothesis(ctx, S.spec_with_pins(PROFILE_COMP, n_sets=2, n_cands=6), prop_complete, max_examples=35 if q else 400)
     run_hypothesis(ctx, S.spec_with_pins(PROFILE_DEL, n_sets=5), prop_delete, max_examples=45 if q else 500)
+    run_hypothesis(ctx, S.spec_with_pins(PROFILE_GP, n_sets=2, n_cands=6), prop_complete, max_examples=20 if q else 250)
+    run_hypothesis(ctx, S.spec_with_pins(PROFILE_GP, n_sets=5), prop_delete, max_examples=25 if q else 300)
     run_hypothesis(ctx, S.spec_with_pins(PROFILES[0], n_sets=0), prop_report, max_examples=40 if q else 400)
 
 
